@@ -277,9 +277,8 @@ def check_rows(case: dict, rows):
     # ---- no line numbers
     cw = case["code_width"]
     avail_hi = W
-    avail_lo = min(cw if cw is not None else W - 1, W) - (0 if cw is not None else 0)
-    if cw is None:
-        avail_lo = W - 2
+    # a line of at most avail_lo cells must be shown verbatim; rich uses console width - 1 here, one cell of slack is allowed
+    avail_lo = min(cw, W) if cw is not None else W - 2
     rows_n = [norm(r) for r in rows]
 
     def consume(want):
@@ -320,8 +319,11 @@ def check_rows(case: dict, rows):
             bad_sel = consume(sel)
             if bad_sel:
                 shown = [r.rstrip()[:40] for r in drop_trailing_blank(rows_n)][:14]
-                fails.append(("c17.range_without_numbers",
-                              "without line numbers the output is neither all the lines nor the lines of the range",
+                a_, b_ = case["line_range"]
+                what = "without line numbers the output is neither all the lines nor the lines of the range"
+                if a_ > 1 and 1 <= b_ < len(full) and consume(full[:b_]) is None:
+                    what += ": lines 1..end-of-range are shown (the start of the range is ignored, its end is not)"
+                fails.append(("c17.range_without_numbers", what,
                               {"all": [t[:40] for _n, t in drop_trailing_blank(full, lambda t: t[1])][:14],
                                "or_range": [t[:40] for _n, t in drop_trailing_blank(sel, lambda t: t[1])][:14]}, shown))
     return fails, counts
@@ -363,7 +365,7 @@ def case_key(case: dict) -> str:
     return "|".join(parts)
 
 
-def shrink_case(case: dict, clause: str, budget: int = 120):
+def shrink_case(case: dict, clause: str, budget: int = 80):
     steps = [0]
 
     def fails(c):
@@ -402,8 +404,8 @@ def shrink_case(case: dict, clause: str, budget: int = 120):
     # shorter lines
     lines = case["code"].split("\n")
     for i, l in enumerate(lines):
-        if len(l) > 5 and steps[0] < budget:
-            for repl in ("x = 1", "a"):
+        if (len(l) > 5 or l == "") and steps[0] < budget:
+            for repl in (f"v{i + 1} = {i + 1}",):
                 cand = lines[:i] + [repl] + lines[i + 1:]
                 c2 = dict(case, code="\n".join(cand))
                 if fails(c2):
@@ -415,7 +417,7 @@ def shrink_case(case: dict, clause: str, budget: int = 120):
         n = case["code"].count("\n") + 1
         for cand in ((1, b), (a, n), (2, 2), (n + 1, n + 1), (n + 1, n + 2)):
             c2 = dict(case, line_range=list(cand))
-            if list(cand) != list(case["line_range"]) and fails(c2):
+            if cand[0] <= cand[1] and list(cand) != list(case["line_range"]) and fails(c2):
                 case = c2
                 break
     return case
@@ -497,56 +499,99 @@ def systematic_shapes():
 
 
 # ------------------------------------------------------------------------------------------------ tracebacks
-def gen_module(rng, path: str, tier: str, callee_name=None):
-    """-> (source, entry line numbers are found from the real traceback, not recorded here)"""
+MODULE_DEFAULTS = {"lead_blank": 0, "lead_comments": 0, "blank_after_comments": 0, "filler": 0, "tab_indent": False,
+                   "wide": False, "blank_before_raise": False, "long_line": False, "unreachable": 0, "gap": 1,
+                   "via_string": False, "gap2": 1, "tail": 0, "final_newline": True, "extra_trailing_blank": 0}
+
+
+def random_module_params(rng, tier: str) -> dict:
+    return {
+        "lead_blank": rng.choice([0, 0, 1, 2, 5]), "lead_comments": rng.choice([0, 1, 3]),
+        "blank_after_comments": rng.choice([0, 1]),
+        "filler": rng.choice([0, 3, 40, 400, 1500 if tier == "thorough" else 250]),
+        "tab_indent": rng.random() < 0.5, "wide": rng.random() < 0.4, "blank_before_raise": rng.random() < 0.5,
+        "long_line": rng.random() < 0.3, "unreachable": rng.choice([0, 2]), "gap": rng.choice([0, 1, 2]),
+        "via_string": rng.random() < 0.2, "gap2": rng.choice([0, 1, 3]), "tail": rng.choice([0, 2, 30]),
+        "final_newline": rng.random() < 0.7, "extra_trailing_blank": rng.choice([0, 0, 2]),
+    }
+
+
+def systematic_module_params():
+    """small shapes first, so that the shortest failing example is a small one"""
+    out = []
+    for lead in (0, 1, 2, 3):
+        for final_newline in (True, False):
+            out.append(dict(MODULE_DEFAULTS, lead_blank=lead, final_newline=final_newline))
+    for lead in (0, 1):
+        out.append(dict(MODULE_DEFAULTS, lead_blank=lead, lead_comments=2))
+        out.append(dict(MODULE_DEFAULTS, lead_blank=lead, filler=30))
+        out.append(dict(MODULE_DEFAULTS, lead_blank=lead, tab_indent=True, wide=True))
+        out.append(dict(MODULE_DEFAULTS, lead_blank=lead, extra_trailing_blank=2, tail=2))
+        out.append(dict(MODULE_DEFAULTS, lead_blank=lead, via_string=True))
+    return out
+
+
+def gen_module(params: dict, name: str, callee_name=None) -> str:
+    """module source: inner() raises (or calls into the other file), middle() calls inner(), the last statement calls
+    middle(); every line is distinct so that a wrong line is recognisable"""
+    P = params
     lines = []
-    lines += [""] * rng.choice([0, 0, 1, 2, 5])
-    for i in range(rng.choice([0, 1, 3])):
-        lines.append(f"# leading comment {i} of {os.path.basename(path)}")
-    lines += [""] * rng.choice([0, 1])
-    n_fill = rng.choice([0, 3, 40, 400, 1500 if tier == "thorough" else 250])
-    for k in range(n_fill):
+    lines += [""] * P["lead_blank"]
+    for i in range(P["lead_comments"]):
+        lines.append(f"# leading comment {i} of {name}")
+    lines += [""] * P["blank_after_comments"]
+    for k in range(P["filler"]):
         lines.append(f"filler_{k} = {k}  # line {len(lines) + 1}")
-    ind = rng.choice(["    ", "\t"])
-    wide = rng.random() < 0.4
+    ind = "\t" if P["tab_indent"] else "    "
+    wide = P["wide"]
     lines.append("def inner(x):")
     lines.append(f"{ind}y = x + 1" + ("  # 日本語のコメント" if wide else ""))
-    if rng.random() < 0.5:
+    if P["blank_before_raise"]:
         lines.append("")
-    if rng.random() < 0.3:
+    if P["long_line"]:
         lines.append(f"{ind}z = '" + "long " * 30 + "'")
     if callee_name:
         lines.append(f"{ind}return {callee_name}(y)  # leaves this file")
     else:
         lines.append(f"{ind}raise ValueError('boom %d' % y)" + ("  # 失敗" if wide else ""))
-    for k in range(rng.choice([0, 2])):
+    for k in range(P["unreachable"]):
         lines.append(f"{ind}unreachable_{k} = {k}")
-    lines += [""] * rng.choice([0, 1, 2])
+    lines += [""] * P["gap"]
     lines.append("def middle(x):")
     lines.append(f"{ind}if x:")
-    via_string = rng.random() < 0.2
-    if via_string:
+    if P["via_string"]:
         lines.append(f"{ind}{ind}return eval('inner(x)')")
     else:
         lines.append(f"{ind}{ind}return inner(x)")
     lines.append(f"{ind}return None")
-    lines += [""] * rng.choice([0, 1, 3])
-    for k in range(rng.choice([0, 2, 30])):
+    lines += [""] * P["gap2"]
+    for k in range(P["tail"]):
         lines.append(f"tail_{k} = {k}  # line {len(lines) + 1}")
     lines.append("RESULT = middle(1)")
     src = "\n".join(lines)
-    if rng.random() < 0.7:
-        src += "\n"
-        src += "\n" * rng.choice([0, 0, 2])
+    if P["final_newline"]:
+        src += "\n" + "\n" * P["extra_trailing_blank"]
     return src
 
 
-def _run_module(code_obj, ns):
-    exec(code_obj, ns)
+def params_key(P: dict) -> str:
+    return ",".join(f"{k}={v}" for k, v in P.items() if v != MODULE_DEFAULTS[k]) or "plain"
+
+
+_RUNNER = """import sys
+
+
+def run(code_obj, ns):
+    try:
+        exec(code_obj, ns)
+    except ValueError:
+        return sys.exc_info()
+    return None
+"""
 
 
 def traceback_case(seed: int, idx: int, tier: str):
-    """-> (fails, counts, key, n_frames)"""
+    """-> (fails, counts, key, n_frames, replay input)"""
     import io
     import linecache
     import random
@@ -563,38 +608,49 @@ def traceback_case(seed: int, idx: int, tier: str):
     counts = {"c17.traceback_line": 0}
     key = f"tb#{idx}"
     try:
-        two = rng.random() < 0.35
-        paths = [os.path.join(tmp, f"m{idx}_a.py")] + ([os.path.join(tmp, f"m{idx}_b.py")] if two else [])
+        sysp = systematic_module_params()
+        if idx < len(sysp):
+            two = False
+            pa, pb = sysp[idx], None
+            opts = {"width": 100, "extra_lines": 3, "word_wrap": False, "indent_guides": True, "theme": None}
+        else:
+            two = rng.random() < 0.35
+            pb = random_module_params(rng, tier) if two else None
+            pa = random_module_params(rng, tier)
+            opts = {"width": rng.choice([100, 100, 120, None]), "extra_lines": rng.choice([3, 3, 0, 1, 6]),
+                    "word_wrap": rng.random() < 0.25, "indent_guides": rng.random() < 0.7,
+                    "theme": rng.choice([None, "monokai", "ansi_light"])}
+        paths = [os.path.join(tmp, "mod_a.py")] + ([os.path.join(tmp, "mod_b.py")] if two else [])
+        runner_path = os.path.join(tmp, "runner.py")
+        with open(runner_path, "w", encoding="utf-8") as fh:
+            fh.write(_RUNNER)
+        ns_r = {"__name__": "runner"}
+        exec(compile(_RUNNER, runner_path, "exec"), ns_r)
+        run_module = ns_r["run"]  # the try / except lives in a small generated file, so every frame is a generated one
         ns_b = {}
+        src_b = None
         if two:
-            src_b = gen_module(rng, paths[1], tier)
+            src_b = gen_module(pb, "mod_b.py")
             with open(paths[1], "w", encoding="utf-8") as fh:
                 fh.write(src_b)
             # module b is executed once (its own final call raises and is swallowed); a then calls b's functions
             ns_b = {"__name__": "mod_b"}
-            try:
-                _run_module(compile(src_b, paths[1], "exec"), ns_b)
-            except ValueError:
-                pass
-        src_a = gen_module(rng, paths[0], tier, callee_name="callee" if two else None)
+            run_module(compile(src_b, paths[1], "exec"), ns_b)
+        src_a = gen_module(pa, "mod_a.py", callee_name="callee" if two else None)
         with open(paths[0], "w", encoding="utf-8") as fh:
             fh.write(src_a)
         ns_a = {"__name__": "mod_a"}
         if two:
             ns_a["callee"] = ns_b["middle"]
-        exc_info = None
-        try:
-            _run_module(compile(src_a, paths[0], "exec"), ns_a)
-        except ValueError:
-            exc_info = sys.exc_info()
+        exc_info = run_module(compile(src_a, paths[0], "exec"), ns_a)
         if exc_info is None:
-            return [("c17.traceback_line", "generated module did not raise (generator bug)", None, None)], counts, key, 0
+            return [("c17.traceback_line", "generated module did not raise (generator bug)", None, None)], counts, key, 0, None
         frames = [(f.f_code.co_filename, lineno, f.f_code.co_name) for f, lineno in pytb.walk_tb(exc_info[2])]
-        opts = {"width": rng.choice([100, 100, 120, None]), "extra_lines": rng.choice([3, 3, 0, 1, 6]),
-                "word_wrap": rng.random() < 0.25, "indent_guides": rng.random() < 0.7,
-                "theme": rng.choice([None, "monokai", "ansi_light"])}
-        key = (f"tb#{idx}: {len(frames)} frames, files of {src_a.count(chr(10)) + 1}"
-               + (f"/{src_b.count(chr(10)) + 1}" if two else "") + f" lines, lead_blank={len(src_a) - len(src_a.lstrip(chr(10)))}, {opts}")
+        okey = ",".join(f"{k}={v}" for k, v in opts.items() if v != {"width": 100, "extra_lines": 3, "word_wrap": False,
+                                                                     "indent_guides": True, "theme": None}[k])
+        key = f"tb[a:{params_key(pa)}" + (f";b:{params_key(pb)}" if two else "") + "]" + (f"|{okey}" if okey else "")
+        replay = {"traceback_case": idx, "seed": seed, "tier": tier, "module_a": pa, "module_b": pb, "traceback_options": opts,
+                  "source_a": src_a if len(src_a) < 600 else src_a[:200] + f"... ({src_a.count(chr(10)) + 1} lines)"}
         W = 200
         outs = {}
         for cs in (None, "truecolor"):
@@ -606,7 +662,7 @@ def traceback_case(seed: int, idx: int, tier: str):
             except BaseException as e:
                 counts["c17.traceback_line"] += 1
                 fails.append(("c17.traceback_line", "rendering the traceback raised", "a rendered traceback", f"{type(e).__name__}: {e}"))
-                return fails, counts, key, len(frames)
+                return fails, counts, key, len(frames), replay
         out = outs[None]
         if outs["truecolor"] != out:
             fails.append(("c17.highlight_chars", "traceback: coloured output differs from the plain one", None, None))
@@ -628,7 +684,7 @@ def traceback_case(seed: int, idx: int, tier: str):
         if [p[0] for p in parsed] != frames:
             fails.append(("c17.traceback_line", "frame headers of the rendered traceback differ from the Python traceback",
                           [f"{f}:{l} in {n}" for f, l, n in frames], [f"{f}:{l} in {n}" for (f, l, n), _ in parsed]))
-            return fails, counts, key, len(frames)
+            return fails, counts, key, len(frames), replay
         for (fname, lineno, name), marked in parsed:
             readable = (not fname.startswith("<")) and os.path.isfile(fname)
             if not readable:
@@ -650,7 +706,7 @@ def traceback_case(seed: int, idx: int, tier: str):
             if num != lineno or not ok_text:
                 fails.append(("c17.traceback_line", f"{where}: the marked row is not line {lineno} of the file",
                               f"{lineno} {want}"[:140], f"{num} {text}"[:140]))
-        return fails, counts, key, len(frames)
+        return fails, counts, key, len(frames), replay
     finally:
         linecache.clearcache()
         shutil.rmtree(tmp, ignore_errors=True)
@@ -658,7 +714,7 @@ def traceback_case(seed: int, idx: int, tier: str):
 
 # ------------------------------------------------------------------------------------------------ pool work
 def _signature(f) -> str:
-    what = _re.sub(r"\d+", "N", str(f[1]))[:70]
+    what = _re.sub(r"\d+", "N", str(f[1]))[-110:]
     obs = f[3]
     m = _re.match(r"^(\w*(?:Error|Exception))\b", obs) if isinstance(obs, str) else None
     return what + ("|" + m.group(1) if m else "")
@@ -679,7 +735,7 @@ def _work(args):
     for idx in range(start, stop):
         rng = random.Random(f"c17:{seed}:{kind}:{idx}")
         if kind == "tb":
-            fails, cnt, key, nframes = traceback_case(seed, idx, tier)
+            fails, cnt, key, nframes, replay = traceback_case(seed, idx, tier)
             evaluations += 1
             for k, v in cnt.items():
                 counts[k] += v
@@ -689,7 +745,8 @@ def _work(args):
                 lst = raw[f[0]]
                 sig = _signature(f)
                 if sum(1 for x in lst if x[3] == sig) < 2 and len({x[3] for x in lst} | {sig}) <= 6:
-                    lst.append((None, key, f, sig, {"traceback_case": idx, "seed": seed, "tier": tier}))
+                    m_ = _re.match(r"^(\S+:\d+ in \S+): ", str(f[1]))
+                    lst.append((None, key + (" @ " + m_.group(1) if m_ else ""), f, sig, replay))
             if idx % 50 == 7 and len(samples) < 1:
                 samples.append(key)
             continue
@@ -737,8 +794,8 @@ def worker_main():
     n_shapes = len(systematic_shapes())
     per_shape = 6 if thorough else 3
     n_sys = n_shapes * per_shape
-    n_rnd = 150_000 if thorough else 9_000
-    n_tb = 3_000 if thorough else 260
+    n_rnd = 150_000 if thorough else 8_000
+    n_tb = 3_000 if thorough else 200
     nproc = min(16, os.cpu_count() or 1)
     jobs = []
 
